@@ -849,9 +849,14 @@ class Table(Vector):
 			staged.append((col_idx, row_spec, val))
 		
 		if len(staged) > 1:
-			# dry run on copies of the target columns
+			# dry run on copies of the target columns - one working copy per column, so
+			# that a column addressed twice sees its own earlier assignment (promotion!)
+			trial = {}
 			for col_idx, row_spec, val in staged:
-				self._underlying[col_idx].copy()[row_spec] = val
+				target = self._underlying[col_idx]
+				if id(target) not in trial:
+					trial[id(target)] = target.copy()
+				trial[id(target)][row_spec] = val
 		
 		for col_idx, row_spec, val in staged:
 			self._underlying[col_idx][row_spec] = val
